@@ -250,3 +250,7 @@ package kmipclient
 //@   modifies c.closed.v, c.conn.closed.v
 //@   ghost clientClosed = true
 //@   ghostmod connBroken, connClosed
+
+// the write loop runs in a goroutine of its own: a panic that escapes it ends the application (C11)
+//@ func (*conn).writeloop
+//@   requires c != nil
